@@ -630,6 +630,9 @@ func makeReplay(o *runOpts, P *Prog, r *FuncResult, ob *Obligation) *ReplayFile 
 			var bs []string
 			for _, l := range lens {
 				bs = append(bs, "(assert "+vc.idxLe(l, vc.idxLit(bound)).S+")")
+				if vc.mode == ModeMath {
+					bs = append(bs, "(assert (<= 0 "+l.S+"))")
+				}
 			}
 			s2 := strings.Replace(base, "(check-sat)\n", strings.Join(bs, "\n")+"\n(check-sat)\n", 1)
 			if vals, _ := getValues(s2, ob.Solver, []string{"true"}, o.timeout); vals != nil {
